@@ -7,6 +7,7 @@ Driver for C18.  Request lines (link text: crossings `T:a,b,c,d` joined by `;`, 
   R <link>            number of circles of every resolution state (state index = Σ bit_k·2^k), `!` = not all circles / panic
   T <link> <i> <j>    raw `traverse_edges` sequence
   B <strands> <word>  closure of a braid word (`e` = empty word) as a PD code relabelled by first appearance
+  C <link>            components only (partially resolved diagrams)
   A <crossing>        `Crossing::arcs`
 
 Canonical forms (same code on the harness side): a circle is rotated so that its least label comes first and
@@ -123,7 +124,7 @@ def handleL (l : Link) : String :=
       | .panic => "panic|panic|panic"
       | .err => "err|err|err"
     let knot := showRes (fun (b : Bool) => if b then "1" else "0") (isKnot l)
-    let seif := showRes compsStr (seifertCircles l)
+    let seif := if nfree = 0 then showRes compsStr (seifertCircles l) else "*"
     s!"{compsStr comps}|{nfree}|{signsTxt}|{knot}|{seif}"
   | .panic => "panic"
   | .err => "err"
@@ -173,6 +174,7 @@ def handle (t : List String) : String :=
         let n ← parseNat? n
         let w ← parseWord? w
         some (showRes (fun pd => pdStr (relabel pd)) (closurePD n w))
+    | ["C", s] => do let l ← parseLink? s; some (showRes compsStr (components l))
     | ["A", s] => do let c ← parseCrossing? s; some (arcsStr c)
     | _ => none
   r.getD "bad-request"
